@@ -1,5 +1,5 @@
 (* Verdict function for the C03 correspondence run: the API calls that were made and the tables of the serialized profile. *)
-From SV Require Import Model.ProfileTables Model.FrameTables.
+From SV Require Import Model.ProfileTables Model.FrameTables Model.MarkerTable.
 Open Scope N_scope.
 
 Definition othread := ((N * N) * (N * N) * bool * thread_json * list stack_key * list (N * option nat) * list (option nat))%type.
@@ -20,7 +20,9 @@ Record c03case := mkCase {
   ob_counters : list (nat * (N * N));                        (* mainThreadIndex, pid string *)
   cp_reqs : list (nat * freq);                               (* thread handle, request - in call order; FNative carries the library HANDLE *)
   ob_libs : list nat;                                        (* library handles in the order of the JSON libs array *)
-  ob_tables : list otables }.                                (* per JSON thread *)
+  ob_tables : list otables;                                  (* per JSON thread *)
+  cp_mops : list (option nat * N * mop);                     (* in call order: (None, 0, MReg schema) | (Some thread handle, name, MAdd type values) *)
+  ob_markers : list (list (N * list N)) }.                   (* per JSON thread: per marker (name, field values in schema order) *)
 
 Fixpoint listnat_eqb (a b : list nat) : bool :=
   match a, b with [], [] => true | x :: a', y :: b' => Nat.eqb x y && listnat_eqb a' b' | _, _ => false end.
@@ -58,6 +60,21 @@ Definition otables_eqb (a b : otables) : bool :=
   let '(s1, rl1, rn1, fn1, fr1, ff1, fa1, fs1, nl1, na1, nn1) := a in let '(s2, rl2, rn2, fn2, fr2, ff2, fa2, fs2, nl2, na2, nn2) := b in
   listN_eqb s1 s2 && listnat_eqb rl1 rl2 && listnat_eqb rn1 rn2 && listnat_eqb fn1 fn2 && liston_eqb fr1 fr2 && listnat_eqb ff1 ff2 && listoN_eqb fa1 fa2 &&
   liston_eqb fs1 fs2 && listnat_eqb nl1 nl2 && listN_eqb na1 na2 && listnat_eqb nn1 nn2.
+
+(* markers of thread h as the model stores and serializes them: every registration, and this thread's add_marker calls *)
+Definition model_markers (mops : list (option nat * N * mop)) (h : nat) : option (list (N * list N)) :=
+  let mine := filter (fun x => match fst (fst x) with None => true | Some t => Nat.eqb t h end) mops in
+  let names := flat_map (fun x => match fst (fst x) with None => [] | Some _ => [snd (fst x)] end) mine in
+  match mrun m_init (map snd mine) with
+  | Some s => match serialize_markers s with Some d => Some (combine names d) | None => None end
+  | None => None
+  end.
+Fixpoint markers_eqb (a b : list (N * list N)) : bool :=
+  match a, b with
+  | [], [] => true
+  | (n1, v1) :: a', (n2, v2) :: b' => (n1 =? n2) && listN_eqb v1 v2 && markers_eqb a' b'
+  | _, _ => false
+  end.
 
 Definition id_eqb (a b : N * N) : bool := (fst a =? fst b) && (snd a =? snd b).
 Definition ot_pid (o : othread) := let '(p, _, _, _, _, _, _) := o in p.
@@ -133,11 +150,21 @@ Definition verdict (c : c03case) : N :=
   let conform :=
     Nat.eqb (length os) (length m_order) &&
     forallb (fun x => match nth_error os (fst x) with Some o => id_eqb (ot_tid o) (tid_of (snd x)) && id_eqb (ot_pid o) (pid_of_thread (snd x)) | None => false end)
-            (combine (seq 0 (length m_order)) m_order) in
+            (combine (seq 0 (length m_order)) m_order) &&
+    (* a counter's mainThreadIndex is the model's first_thread_index of its process (when the process has threads) *)
+    forallb (fun x => let ph := fst x in
+                      if existsb (fun t => Nat.eqb (fst t) ph) tkeys
+                      then match first_thread_index pkeys tkeys ph with Some i => Nat.eqb i (fst (snd x)) | None => false end
+                      else true) (combine (cp_counters c) (ob_counters c)) in
   (* L1: the frame / func / resource / string tables and the used-library order are exactly the model's *)
   let tables_ok :=
     listnat_eqb (used_libs (cp_reqs c)) (ob_libs c) &&
     Nat.eqb (length (ob_tables c)) (length m_order) &&
     forallb (fun x => otables_eqb (model_tables (cp_reqs c) (fst x)) (snd x)) (combine m_order (ob_tables c)) in
+  (* every marker's name and field values are the ones its add_marker call supplied (model: Model/MarkerTable.v) *)
+  let markers_ok :=
+    Nat.eqb (length (ob_markers c)) (length m_order) &&
+    forallb (fun x => match model_markers (cp_mops c) (fst x) with Some l => markers_eqb l (snd x) | None => false end)
+            (combine m_order (ob_markers c)) in
   (if (2 <=? N.of_nat (length (cp_threads c))) && (1 <=? N.of_nat (length (cp_samples c))) then 10 else 0) +
-  (if negb (wf && uniq && refs && canon) then 2 else if conform && tables_ok then 0 else 1).
+  (if negb (wf && uniq && refs && canon) then 2 else if conform && tables_ok && markers_ok then 0 else 1).
